@@ -21,6 +21,9 @@ pub struct CatJob {
     /// operations appended to every history (C05: a final restart)
     pub suffix: Vec<COp>,
     pub wall_cap_s: u64,
+    /// administrative commands go over HTTP/JSON instead of the binary protocol
+    #[serde(default)]
+    pub http: bool,
 }
 
 pub struct CStepCtx<'a> {
@@ -42,6 +45,7 @@ pub fn run_chistory(
     prop: &str,
     scratch: &Scratch,
     tpl: &CatTemplate,
+    http: bool,
     layer: &str,
     prelude: &[COp],
     hist: &[COp],
@@ -54,10 +58,10 @@ pub fn run_chistory(
     let mk = |i: usize, m: String, key: String| Violation {
         property: prop.into(),
         key,
-        message: format!("layer {layer} cfg[{}] history[{}] step {}: {}", tpl.cfg.label(), chist(&hist[..(i + 1).min(hist.len())]), i, m),
-        replay: json!({"kind":"cat","cfg": tpl.cfg, "layer": layer, "prelude": prelude, "history": &hist[..(i + 1).min(hist.len())]}),
+        message: format!("layer {layer}{} cfg[{}] history[{}] step {}: {}", if http { " (over HTTP)" } else { "" }, tpl.cfg.label(), chist(&hist[..(i + 1).min(hist.len())]), i, m),
+        replay: json!({"kind":"cat","cfg": tpl.cfg, "layer": layer, "http": http, "prelude": prelude, "history": &hist[..(i + 1).min(hist.len())]}),
     };
-    let mut w = match CatWorld::new(scratch, tpl, Transports::TCP) {
+    let mut w = match CatWorld::new(scratch, tpl, if http { Transports::BOTH } else { Transports::TCP }) {
         Ok(w) => w,
         Err(e) => return Some(mk(0, format!("server failed to start on the template directory: {e:?}"), format!("{prop}:start-failed"))),
     };
@@ -137,12 +141,12 @@ pub fn run_job(prop: &str, job: &CatJob, factory: COracleFactory) -> JobResult {
         let want_sample = count % 499 == 1;
         let selfcheck = count % 64 == 7;
         let mut d1 = Vec::new();
-        let v = run_chistory(prop, &scratch, &tpl, &job.layer, &job.prelude, &hist, canonical_from, oracle.as_mut(), &mut res, want_sample, if selfcheck { Some(&mut d1) } else { None });
+        let v = run_chistory(prop, &scratch, &tpl, job.http, &job.layer, &job.prelude, &hist, canonical_from, oracle.as_mut(), &mut res, want_sample, if selfcheck { Some(&mut d1) } else { None });
         if selfcheck {
             let mut d2 = Vec::new();
             let mut r2 = JobResult::default();
             let mut o2 = factory(&job.oracle, &job.cfg);
-            let v2 = run_chistory(prop, &scratch, &tpl, &job.layer, &job.prelude, &hist, canonical_from, o2.as_mut(), &mut r2, false, Some(&mut d2));
+            let v2 = run_chistory(prop, &scratch, &tpl, job.http, &job.layer, &job.prelude, &hist, canonical_from, o2.as_mut(), &mut r2, false, Some(&mut d2));
             res.bump("replay_selfchecks");
             if v.as_ref().map(|x| &x.key) != v2.as_ref().map(|x| &x.key) {
                 res.machinery_error = Some(format!(
@@ -202,6 +206,7 @@ pub fn make_cat_jobs(
     depth: usize,
     suffix: &[COp],
     wall_cap_s: u64,
+    http: bool,
 ) -> Vec<CatJob> {
     (0..alphabet.len())
         .map(|i| CatJob {
@@ -214,6 +219,7 @@ pub fn make_cat_jobs(
             oracle: oracle.to_string(),
             suffix: suffix.to_vec(),
             wall_cap_s,
+            http,
         })
         .collect()
 }
